@@ -229,6 +229,57 @@ def ext_fetcher_rules(ctx, rule):
     ctx.inst(rule, ini, 'ext:no-request-initially', len(i0) == 1 and isinstance(i0[0], int) and i0[0] < 0, 'before the first request no id is accepted; initial %s' % i0)
 
 
+def param_name_terms(init):
+    """Abstract evaluation of the name decoding in ParamTocElement.__init__: which term each of self.group / self.name holds, in the
+    vocabulary  chars(B) = the bytes of B as 1-byte strings, text(X) = their ISO-8859-1 decoding joined, fields(T) = T split at NUL.
+    Accepts the accumulation loop, ''.join(generator) and bytes.decode spellings.  -> {target text: (term, index)}"""
+    env, out = {}, {}
+
+    def term(e):
+        if isinstance(e, ast.Name):
+            return env.get(e.id)
+        if isinstance(e, ast.Subscript) and isinstance(e.value, ast.Name) and isinstance(env.get(e.value.id), str) and env[e.value.id].startswith('fields(') \
+                and isinstance(e.slice, ast.Constant) and isinstance(e.slice.value, int):
+            return (env[e.value.id], e.slice.value)
+        if isinstance(e, ast.Call) and dotted(e.func) == 'struct.unpack' and len(e.args) == 2 and norm(e.args[0]).replace(' ', '') == "'s'*len(%s)" % norm(e.args[1]).replace(' ', ''):
+            return 'chars(%s)' % norm(e.args[1])
+        if isinstance(e, ast.Call) and isinstance(e.func, ast.Attribute):
+            if e.func.attr == 'split' and [norm(a) for a in e.args] in (["'\\x00'"], ["'\\0'"]):
+                t = term(e.func.value)
+                return 'fields(%s)' % t if isinstance(t, str) and t.startswith('text(') else None
+            if e.func.attr == 'join' and isinstance(e.func.value, ast.Constant) and e.func.value.value == '' and len(e.args) == 1 and \
+                    isinstance(e.args[0], (ast.GeneratorExp, ast.ListComp)) and len(e.args[0].generators) == 1 and not e.args[0].generators[0].ifs:
+                g_ = e.args[0].generators[0]
+                src = term(g_.iter)
+                if isinstance(src, str) and src.startswith('chars(') and norm(e.args[0].elt) == "%s.decode('ISO-8859-1')" % norm(g_.target):
+                    return 'text(%s)' % src
+            if e.func.attr == 'decode' and [norm(a) for a in e.args] == ["'ISO-8859-1'"] and isinstance(e.func.value, ast.Subscript):
+                return 'text(chars(%s))' % norm(e.func.value)
+        if isinstance(e, ast.Constant) and e.value == '':
+            return "''"
+        return None
+
+    def run(stmts):
+        for st in stmts:
+            if isinstance(st, ast.Assign) and len(st.targets) == 1:
+                t = st.targets[0]
+                v = term(st.value)
+                if isinstance(t, ast.Name):
+                    env[t.id] = v
+                elif isinstance(t, ast.Attribute) and v is not None:
+                    out[norm(t)] = v
+            elif isinstance(st, ast.For) and isinstance(st.target, ast.Name) and len(st.body) == 1 and aug_form(st.body[0]):
+                acc, op, val = aug_form(st.body[0])
+                src = term(st.iter)
+                if env.get(acc) == "''" and op is ast.Add and isinstance(src, str) and src.startswith('chars(') and norm(val) == "%s.decode('ISO-8859-1')" % st.target.id:
+                    env[acc] = 'text(%s)' % src
+            elif isinstance(st, ast.If):
+                run(st.body)
+    run(init.node.body)
+    return out
+
+
+
 def check(ctx):
     m = ctx.model
     fetcher, cb, g, pkv, adds, reqs = fetch_guard_rules(ctx, 'R1')
@@ -274,7 +325,17 @@ def check(ctx):
         v2 = fact_key('self._useV2', True) in g.fact_keys_at(n)
         a = x.args[0]
         sl = a.args[1] if isinstance(a, ast.Call) and len(a.args) > 1 else None
-        lo = fold_in(cb, sl.slice.lower) if isinstance(sl, ast.Subscript) and isinstance(sl.slice, ast.Slice) and sl.slice.lower else None
+        low = sl.slice.lower if isinstance(sl, ast.Subscript) and isinstance(sl.slice, ast.Slice) and sl.slice.lower else None
+        if isinstance(low, ast.Name) and len(g.reaching_defs(n, low.id)) > 1:
+            # the width is held in a local that each protocol branch sets: compare per branch of the binding
+            for d in g.reaching_defs(n, low.id):
+                dv2 = fact_key('self._useV2', True) in g.fact_keys_at(d)
+                lo = fold_in(cb, d.ast.value) if isinstance(d.ast, ast.Assign) else None
+                ctx.inst('R2', cb, 'element-offset[%s]' % ('V2' if dv2 else 'V1'), lo == want[dv2]['id_width'] and sl.slice.upper is None and
+                         (dv2 or fact_key('self._useV2', False) in g.fact_keys_at(d)),
+                         'element data must start after the %d index byte(s); %s = %s' % (want[dv2]['id_width'], low.id, lo))
+            continue
+        lo = fold_in(cb, low) if low is not None else None
         ctx.inst('R2', cb, 'element-offset[%s]' % ('V2' if v2 else 'V1'), lo == want[v2]['id_width'] and sl.slice.upper is None,
                  'element data must start after the %d index byte(s); slice %s' % (want[v2]['id_width'], norm(sl) if sl is not None else None))
     pl = [s for s in walk_own(cb.node) if isinstance(s, ast.Assign) and norm(s.targets[0]) == 'payload']
@@ -379,10 +440,11 @@ def check(ctx):
     ctx.inst('R7', li, 'log-ident', lst.get('self.ident') == 'ident', 'element index = constructor argument')
     pst = {norm(s.targets[0]): norm(s.value) for s in sorted([x for x in walk_own(init.node) if isinstance(x, ast.Assign)], key=lambda x: x.lineno)}
     pall = {(norm(x.targets[0]), norm(x.value)) for x in walk_own(init.node) if isinstance(x, ast.Assign)}
-    ctx.inst('R7', init, 'param-skip-metadata', ('strs', "struct.unpack('s' * len(data[1:]), data[1:])") in pall and ('metadata', 'data[0]') in pall,
-             'names start after the one metadata byte, metadata = byte 0')
-    ctx.inst('R7', init, 'param-split', ('strs', "s.split('\\x00')") in pall and pst.get('self.group') == 'strs[0]' and pst.get('self.name') == 'strs[1]',
-             'group, name = first and second NUL separated strings')
+    names = param_name_terms(init)
+    ctx.inst('R7', init, 'param-skip-metadata', names.get('self.group', ('', 0))[0] == 'fields(text(chars(data[1:])))' and ('metadata', 'data[0]') in pall,
+             'names start after the one metadata byte, metadata = byte 0; group is %s' % (names.get('self.group'),))
+    ctx.inst('R7', init, 'param-split', names.get('self.group') == ('fields(text(chars(data[1:])))', 0) and names.get('self.name') == ('fields(text(chars(data[1:])))', 1),
+             'group, name = first and second NUL separated strings of the ISO-8859-1 text; found %s / %s' % (names.get('self.group'), names.get('self.name')))
     ctx.inst('R7', init, 'param-ident', pst.get('self.ident') == 'ident', 'element index = constructor argument')
 
     toc_lookup_rules(ctx, 'R8')
